@@ -256,7 +256,8 @@ void HttpMessage::readHeaders()
 	{
 		if (isspace(line[0])) // multiline
 		{
-			setHeader(headerName, headerValue + line.trimmed());
+			headerValue += line.trimmed(); // keep it: a further continuation line extends this, not the first line
+			setHeader(headerName, headerValue);
 			continue;
 		}
 		line.trim();
